@@ -98,7 +98,17 @@ impl Number {
     /// converting the resulting BigRational into the most appropriate
     /// Number type.
     pub fn parse_rational(text: &str, radix: u32) -> Option<Number> {
-        match Rational32::from_str_radix(text, radix) {
+        // Ratio::<i32>::new negates both parts of a ratio whose denominator is negative, which
+        // overflows for i32::MIN; such spellings take the BigRational route below.
+        let has_i32_min = text
+            .splitn(2, '/')
+            .any(|part| i32::from_str_radix(part, radix) == Ok(i32::MIN));
+        let small = if has_i32_min {
+            Err(())
+        } else {
+            Rational32::from_str_radix(text, radix).map_err(|_| ())
+        };
+        match small {
             Ok(num) => {
                 if num.is_integer() {
                     Some(Number::from(num.to_i64().unwrap()))
